@@ -237,6 +237,10 @@ def run(prop, tier='quick', seed=0, repo='/repo', update_lock=False, verbose=Fal
         except Exception:
             crashed.append(traceback.format_exc())
     for rec in eff_records:
+        if rec.get('undecided') and not rec['ok']:
+            # the frame obligation cannot be located in the tree (file or function moved / renamed): undecided, not a violation
+            undecided.append({'obligation': rec['name'], 'reason': rec.get('detail', '')})
+            continue
         if rec['ok']:
             discharged.append({'name': rec['name'], 'result': 'ok', 'backend': 'ast-effects', 'time_s': 0.0, 'kind': 'frame'})
         else:
